@@ -865,6 +865,17 @@ impl GState {
                 }
             }
             Op::Delete(d, n) => {
+                // a delete that failed on a device fault may or may not have removed the entry (the slot is marked
+                // before the chain is freed): what is at that name is no longer known to the reference
+                if !ok && out.res == "err DeviceError" {
+                    if let Some(gd) = self.dirs.iter().find(|x| x.handle == *d).cloned() {
+                        let mut path = gd.path.clone();
+                        path.push(sfn(n));
+                        if let Some(rf) = self.trees[gd.vol].file_at_mut(&path) {
+                            rf.opaque = true;
+                        }
+                    }
+                }
                 if ok {
                     if let Some(gd) = self.dirs.iter().find(|x| x.handle == *d).cloned() {
                         if let Some(dir) = self.trees[gd.vol].dir_at_mut(&gd.path) {
